@@ -32,7 +32,9 @@ RULE = ("Each case = a small committed base index (directory or RAM), a main wri
         "elapsed, and one that starts while it is free is admitted; after A's commit / cancel / exception a new "
         "writer gets the lock at once; the final documents equal the base plus, in TOC-rename order, every successful "
         "commit's adds minus its deletes; latest_generation() = initial + number of successful commits; AsyncWriter "
-        "rivals that met a busy lock are present after join. Non-trivial = >=1 rival refused while the lock was held "
+        "rivals that met a busy lock are present after join. Scripts may add nothing (delete-only and idle commits "
+        "advance the generation like any other); in some cases the index is re-created in place while A's writer is open "
+        "and the writer attempt that follows must still be refused (content is not judged in those cases). Non-trivial = >=1 rival refused while the lock was held "
         "and >=1 rival admitted; distinct by SHA-1 of the case.")
 ASSUMPTIONS = [
     "schedules are owned at storage-operation granularity; a rival runs atomically at a boundary of A (nested up to "
@@ -45,7 +47,8 @@ def script_s(maxadds=3):
     return st.fixed_dictionaries({
         "front": st.sampled_from(["seg", "seg", "with", "async", "buffered", "mp"]),
         "timeout": st.sampled_from([0, 0, 0.03]),
-        "nadds": st.integers(1, maxadds),
+        # 0 adds: a transaction that only deletes (or does nothing at all) is a commit like any other
+        "nadds": st.integers(0, maxadds),
         "dels": st.lists(st.integers(0, 5), max_size=2),
         "end": st.sampled_from(["commit", "commit", "cancel", "raise"]),
         "merge": st.sampled_from([False, True, "opt"]),
@@ -66,6 +69,9 @@ def case_s(draw):
         "fork_every": draw(st.sampled_from([5, 5, 3, 11])),
         # a child process forked while A's writer is open (a worker, a daemon) that outlives A's commit / cancel
         "bystander_at": draw(st.one_of(st.none(), st.integers(1, 60))),
+        # the index is re-created in place (create_in over the same directory / storage) while A's writer is open;
+        # the writer attempt that follows must still be refused
+        "recreate_at": draw(st.one_of(st.none(), st.none(), st.integers(1, 40))),
     }
 
 
@@ -237,6 +243,7 @@ def _run(case, out):
             return outcome
 
         pending_async = []
+        recreated = []
         nestset = set(case["nest_at"])
 
         def forked_rival(owner, script):
@@ -317,6 +324,22 @@ def _run(case, out):
                 out.label("bystander_process_forked_while_writer_open")
             owner = "B%d" % j
             held = mon.holder is not None
+            if case.get("recreate_at") == j and mon.holder == "A" and not recreated:
+                recreated.append(j)
+                out.label("index_recreated_while_writer_open")
+                rst, _ = storage_for("R%d" % j)
+                rix = rst.create_index(schema)
+                t0 = time.time()
+                try:
+                    rw = rix.writer(timeout=0)
+                except LockError:
+                    oc = "lockerror"
+                else:
+                    oc = "admitted"
+                    rw.cancel()
+                attempts.append({"owner": "R%d" % j, "held": True, "outcome": oc, "elapsed": time.time() - t0,
+                                 "timeout": 0, "after_recreate": True})
+                return
             script = dict(case["B"])
             if j % 16 != 3:
                 script["timeout"] = 0   # waiting out a timeout costs real time: only every 16th rival does
@@ -348,6 +371,13 @@ def _run(case, out):
             stop_bystander()
             for _, aw, _, _ in pending_async:
                 aw.join(10)   # no thread outlives the case
+            if recreated:
+                # files vanishing under the interrupted writer (the re-creation deleted them) are not the subject;
+                # the lock verdict was already recorded
+                out.exclude("main_writer_failed_after_index_recreated")
+                if any(a.get("after_recreate") and a["outcome"] != "lockerror" for a in attempts):
+                    out.fail("c04.second_writer_admitted_while_lock_held", [a for a in attempts if a.get("after_recreate")][0])
+                return
             from wv.runner import _is_whoosh_frame
             tb = traceback.extract_tb(e.__traceback__)
             if not any(_is_whoosh_frame(f) for f in tb):
@@ -415,6 +445,14 @@ def _run(case, out):
                     out.fail("c04.writer_refused_while_lock_free", a)
                 else:
                     admitted += 1
+        if recreated:
+            # what the re-created index holds once the interrupted writer finishes is not the property's subject
+            vix.close()
+            stop_bystander()
+            out.units = len(attempts)
+            out.nontrivial = refused > 0
+            out.key = case
+            return
         # no committed update is lost
         for owner, adds, dels in log:
             for k in dels:
